@@ -57,11 +57,13 @@ THEOREMS = [
 ]
 OVERLAY = {"server/zz_verif_c19_test.go": "server/zz_verif_c19_test.go",
            "server/zz_verif_c19tmpl_test.go": "server/zz_verif_c19tmpl_test.go"}
+OVERLAY_RUNNER = {"runner/ollamarunner/zz_verif_c19_test.go": "runner_ollamarunner/zz_verif_c19_test.go"}
 
 
 def run(ctx):
     ctx.lean_check(MODULES, THEOREMS)
-    env = {"VERIF_N": ctx.scale(6000, 150000), "VERIF_CORPUS": os.path.join(core.ROOT, "corpus", "C19")}
+    env = {"VERIF_N": ctx.scale(6000, 150000), "VERIF_CORPUS": os.path.join(core.ROOT, "corpus", "C19"),
+           "VERIF_PAIRS": ctx.scale(4000, 40000)}
     if ctx.replay:
         env["VERIF_REPLAY"] = ctx.replay_line_file()
     rc, out, outdir = ctx.go_test("./server/", OVERLAY, "^TestVerifC19$", env=env)
@@ -70,6 +72,20 @@ def run(ctx):
     ctx.read_stats(outdir)
     ctx.l1(outdir)
     ctx.classify(ctx.l2(outdir))
+
+    # runner side: the REAL ollamarunner `inputs` on the (prompt, images) pairs the real chatPrompt just
+    # produced, plus generated adversarial pairs
+    if not ctx.replay or "resolve " in open(env["VERIF_REPLAY"]).read():
+        renv = {"VERIF_N": ctx.scale(1500, 30000), "VERIF_C19_PAIRS": os.path.join(outdir, "pairs.txt")}
+        if ctx.replay:
+            renv["VERIF_REPLAY"] = env["VERIF_REPLAY"]
+        rc, out, routdir = ctx.go_test("./runner/ollamarunner/", OVERLAY_RUNNER, "^TestVerifC19Runner$", env=renv)
+        if rc != 0:
+            ctx.violation("driver-failed", "", out[-1500:], no_input=True)
+        st = ctx.read_stats(routdir)
+        ctx.coverage["runner_side_cases"] = st.get("cases", 0)
+        ctx.l1(routdir, label="L1-runner")
+        ctx.classify(ctx.l2(routdir))
     ctx.assumptions += [
         "template + tokenizer enter the model as the cost vector measured on the real code for each case",
         "user text contains no literal `[img-` (cases violating it are generated for L1 but skipped by the tag-count monitor)",
